@@ -18,6 +18,8 @@ def held_run(ctx, c, hc, tag, id_base, bystander=True):
 
 
 def run(ctx):
+    if ctx.replay:
+        return srvfam.replay_file(ctx, PROPS)
     q = ctx.quick
     # 1. model checking: tag groups (safety), then liveness with one request held for ever
     cg = srvfam.consts(ctx, NReq=3, Tags={1, 2}, Kinds={"Stat"}, SharedTags=True, Late=True, InitFids={1})
